@@ -37,6 +37,8 @@ def params(draw, tier):
     p["tseed"] = draw(st.integers(0, 2 ** 32 - 1))
     p["flip2"] = draw(st.integers(0, 2 ** 32 - 1))
     p["scale2"] = draw(st.sampled_from([1e-3, 0.1, 7.0, 1e3]))
+    # spacing of the sample points along each interface: uniform, or crowded towards one end (t -> t^2, t^0.5)
+    p["tpow"] = draw(st.sampled_from([1.0, 1.0, 2.0, 0.5]))
     return p
 
 
@@ -98,6 +100,9 @@ def turning_floor(t, nint, ri):
 
 def check_case(p, ctx):
     t0 = gen.build_base(p)
+    if p.get("tpow", 1.0) != 1.0:
+        t0.meta["tpow"] = p["tpow"]
+        ctx.count("non-uniform-sampling")
     t0 = gen.apply_sub(t0, p, connected=True, no_pinch=True)
     nint = gen.n_int_func(t0, p)
     t, _ = gen.apply_pose(t0, p.get("pose"), nint)
@@ -134,7 +139,7 @@ def check_case(p, ctx):
         if rhs > 10 * floor * T[ri] + 1e-12 * T[ri] and plus != cs:
             return ctx.violation("centre-of-curvature-side", p, observed=plus, expected=cs,
                                  detail={"ridge": ri, "theta": r.theta, "flipped": {str(k): v for k, v in R.flipped.items()}})
-        if theta <= 1.5 and theta > 1e4 * floor:
+        if theta <= 1.5 and theta > 1e4 * floor and p.get("tpow", 1.0) == 1.0:
             ratio = (rhs / T[ri]) / (theta * (n - 2) / (n - 1))
             key = "turning-ratio-min"
             ctx.classes[key] = min(ctx.classes.get(key, 9.0), ratio)
@@ -218,7 +223,7 @@ def check_case(p, ctx):
             if np.max(np.abs(pres)) > 1e-8 * max(T.values()):
                 return ctx.violation("straight-tissue-pressure", p, observed=float(np.max(np.abs(pres))), expected=0.0)
             ctx.count("physics:straight-all-zero")
-        elif min(nint[ri] for ri in internal) >= 3 and len(idx) >= 6 and not p.get("sub"):
+        elif min(nint[ri] for ri in internal) >= 3 and len(idx) >= 6 and not p.get("sub") and p.get("tpow", 1.0) == 1.0:
             p_an = np.array([t.pressure(c) for c in cells_i])
             # ideal solution of the stated equations: exact tensions, exact turning, own least squares
             Li = np.zeros((len(internal), len(idx)))
